@@ -228,7 +228,7 @@ func ruleRCWriters(c *Ctx) {
 	}
 	for _, g := range []Guard{
 		{ID: "inactive-only", Doc: "only records marked inactive are deleted", Alts: [][]string{{"pkg/core/mpt.IsActiveValue"}}},
-		{ID: "not-newer-than-index", Doc: "only records that became inactive at or before the GC height are deleted", Alts: [][]string{{"local:h", "encoding/binary.(littleEndian).Uint32"}}},
+		{ID: "not-newer-than-index", Doc: "only records that became inactive at or before the GC height are deleted", Alts: [][]string{{"encoding/binary.(littleEndian).Uint32"}}},
 	} {
 		res := f.CheckGate(f.Entry(), blocksOf(drops), g, nil)
 		if res.OK {
@@ -523,7 +523,7 @@ func ruleProofKey(c *Ctx) {
 	for _, s := range f.CallSites("pkg/core/mpt.NewTrie") {
 		if len(s.call.Args) == 3 {
 			m0 := f.DirectMentions(s.call.Args[0])
-			okRoot = m0["pkg/core/mpt.NewHashNode"] && m0["param:rh"]
+			okRoot = m0["pkg/core/mpt.NewHashNode"] && m0["param#0"]
 			m2 := f.DirectMentions(s.call.Args[2])
 			okStore = m2["pkg/core/storage.NewMemCachedStore"] && m2["pkg/core/storage.NewMemoryStore"]
 		}
